@@ -8,6 +8,14 @@ M1 = "M1: engine S treats machine arithmetic as real arithmetic (no rounding, Na
 NOT_BUILT = {}
 
 PROPS = {
+    "C05": {
+        "engines": ["K", "X"],
+        "k": {"jobs": 14, "timeout": 600},
+        "technique": "contract-based deductive verification: Kani/CBMC contracts over every f32 bit pattern for the LUT encoders (incl. the unsafe table read), exact-rational break-point certificates for accuracy",
+        "level_text": "todo",
+        "level_note": "todo",
+        "assumptions": [],
+    },
     "C06": {
         "engines": ["K"],
         "k": {"jobs": 14, "timeout": 600},
@@ -47,6 +55,13 @@ def check(prop, tier, seed):
         obs += o; cmds += c; vac["kani"] = v; trusted += kengine.TRUSTED
         os.makedirs(os.path.join(BUILD, "logs"), exist_ok=True)
         open(os.path.join(BUILD, "logs", "%s-kani.log" % prop), "w").write(log)
+    if "X" in cfg["engines"]:
+        import xengine
+        if any(o.id == "K.build" for o in obs):
+            pass
+        else:
+            o, c, tb = xengine.run_c05(prop, tier)
+            obs += o; cmds += c; trusted += tb
     return finish(prop, tier, seed, obs, t0, cmds, trusted, cfg.get("assumptions", []),
                   vacuity=vac, not_decided=cfg.get("not_decided"))
 
